@@ -150,8 +150,8 @@ func parseRawFrames(b []byte) (fs []rawFrame, rest []byte) {
 type EndpointCfg struct {
 	Role      string // the library's role: "client" | "server"
 	Flate     bool
-	Cnct      bool // client_no_context_takeover agreed
-	Snct      bool // server_no_context_takeover agreed
+	Cnct      bool   // client_no_context_takeover agreed
+	Snct      bool   // server_no_context_takeover agreed
 	Mode      string // library's own CompressionMode: "takeover" | "notakeover" (only when Flate)
 	Threshold int
 	// raw overrides for negotiation suites
